@@ -126,8 +126,13 @@ var tasks = []task{
 	{"helpers", func(r *rand.Rand, c map[string][]string) string {
 		in := append([]byte{}, pick(r, c["html"])...)
 		a := parse.ReplaceMultipleWhitespace(append([]byte{}, in...))
-		ents := []byte("a &amp; b &#65; &lt;&#x41;&quot; &amp;amp; c")
-		b := parse.ReplaceEntities(append([]byte{}, ents...), map[string][]byte{"amp": []byte("&"), "lt": []byte("<"), "quot": []byte("\"")}, map[byte][]byte{'<': []byte("&lt;")})
+		ents := []byte("a &amp; b &#65; &lt;&#x41;&quot; &amp;amp; c &DoubleLongLeftRightArrow; &varphi; &CounterClockwiseContourIntegral;")
+		emap := map[string][]byte{"amp": []byte("&"), "lt": []byte("<"), "quot": []byte("\"")}
+		if r.Intn(2) == 0 { // callers use different entity tables
+			emap = map[string][]byte{"amp": []byte("&"), "varphi": []byte("φ"), "DoubleLongLeftRightArrow": []byte("⟺"), "CounterClockwiseContourIntegral": []byte("∳")}
+		}
+		b := parse.ReplaceEntities(append([]byte{}, ents...), emap, map[byte][]byte{'<': []byte("&lt;")})
+		b2 := parse.ReplaceMultipleWhitespaceAndEntities(append([]byte{}, ents...), emap, map[byte][]byte{'<': []byte("&lt;")})
 		var buf []byte
 		ev := html.EscapeAttrVal(&buf, append([]byte{}, in...), byte("\"'\x00"[r.Intn(3)]), r.Intn(2) == 0)
 		var buf2 []byte
@@ -136,7 +141,7 @@ var tasks = []task{
 		dm, dd, derr := parse.DataURI([]byte("data:text/plain;base64,aGVsbG8="))
 		n := parse.Number([]byte("-12.5e+3px"))
 		line, col, ctx := parse.Position(bytes.NewReader(in), r.Intn(len(in)+1))
-		return sum(string(a), string(b), string(ev), string(xv), string(mt), params, string(dm), string(dd), derr, n, line, col, ctx,
+		return sum(string(a), string(b), string(b2), string(ev), string(xv), string(mt), params, string(dm), string(dd), derr, n, line, col, ctx,
 			css.ToHash([]byte("font-face")), html.ToHash([]byte("script")), parse.EqualFold([]byte("AbC"), []byte("abc")),
 			string(parse.EncodeURL(append([]byte{}, in...), parse.URLEncodingTable)), css.IsIdent(in), string(parse.ToLower(append([]byte{}, in...))))
 	}},
@@ -184,7 +189,8 @@ func (c counter) Exit(n js.INode)              {}
 func corpus() map[string][]string {
 	c := lexers.HarvestLiterals("/repo")
 	c["js"] = append(c["js"], "var a=1;function f(a,b){return a+b*2}", "class A extends B{constructor(){super()}#p=1;static{x}}", "for(let i=0;i<n;i++){if(a)b;else c}",
-		"x=`a${b}c`;y=a?.b??c;z=/re/g", "async function*g(){yield await a}", "while(a){b}")
+		"x=`a${b}c`;y=a?.b??c;z=/re/g", "async function*g(){yield await a}", "while(a){b}",
+		"/*! one */\n/*! two */\n/*! three */\nfirst=1", "/*! banner */second=2;third=3", "/*! only */", "//! line\n/*! a */\n/*! b */\n/*! c */\nx")
 	c["css"] = append(c["css"], "a{color:red;margin:0 auto}", "@media screen and (min-width:10px){.b>c+d{e:f(1,2)}}", "--x: {a;b};", "@font-face{src:url(a.woff)}")
 	c["html"] = append(c["html"], "<!doctype html><a href='x' B=c>t</a><script>if(a<b){}</script>", "<svg><path d=\"M0 0\"/></svg> {{ x }} <% y %>", " a\t\n b  ")
 	c["xml"] = append(c["xml"], "<?xml version=\"1.0\"?><a b='c'><![CDATA[x]]><d/></a>")
@@ -278,6 +284,8 @@ func History(args []string) {
 	out := fs.String("out", "", "trace file")
 	seed := fs.Int64("seed", 1, "seed")
 	n := fs.Int("tasks", 300, "tasks")
+	order := fs.String("order", "fwd", "fwd | rev: which order the first pass of this process uses")
+	digests := fs.String("digests", "", "write the per-task digests of the first pass here (compared across processes by the check)")
 	fs.Parse(args)
 	c := corpus()
 	rng := rand.New(rand.NewSource(*seed))
@@ -297,6 +305,30 @@ func History(args []string) {
 	for i := range fwd {
 		fwd[i], rev[i] = i, *n-1-i
 	}
+	if *order == "rev" {
+		fwd, rev = rev, fwd
+	}
+	// objects that outlive other calls: parse every js source first, print all the trees only afterwards
+	var retained []string
+	{
+		var asts []*js.AST
+		for _, src := range c["js"] {
+			if ast, err := js.Parse(parse.NewInputString(src), js.Options{}); err == nil {
+				asts = append(asts, ast)
+			} else {
+				asts = append(asts, nil)
+			}
+		}
+		for i, ast := range asts {
+			if ast == nil {
+				retained = append(retained, "err")
+				continue
+			}
+			later := ast.String()
+			fresh, _ := js.Parse(parse.NewInputString(c["js"][i]), js.Options{})
+			retained = append(retained, fmt.Sprint(later == fresh.String()))
+		}
+	}
 	first := pass(fwd)
 	for i := 0; i < 1000; i++ { // unrelated calls
 		runTask(rng.Intn(1000), rng.Int63(), c)
@@ -314,8 +346,18 @@ func History(args []string) {
 		}
 		w.Ev("History", tr.E{"id": i, "kind": tasks[i%len(tasks)].kind, "same": same})
 	}
+	for i, r := range retained {
+		if r == "false" {
+			diff++
+		}
+		w.Ev("History", tr.E{"id": 100000 + i, "kind": "tree-kept-while-other-sources-were-parsed", "same": r != "false"})
+	}
 	w.End(true)
 	w.Close()
+	if *digests != "" {
+		b, _ := json.Marshal(first)
+		os.WriteFile(*digests, b, 0o644)
+	}
 	json.NewEncoder(os.Stdout).Encode(map[string]interface{}{"suite": "conc", "mode": "history", "executions": 3 * *n, "traces": 1, "events": w.Events, "mismatches": diff,
 		"digest_of_all": sum(first)})
 }
